@@ -79,34 +79,72 @@ func init() {
 			fmt.Fprintf(w, "/-- JSON+ table passed as `%s` to NewCommentReader. -/\ndef %s : %s := %s\n", n, n, types[i], t)
 		}
 
-		// split function inside NewCommentReader: how `extra` (position of the end marker) is found.
-		cr := p.funcDecl("", "NewCommentReader")
-		if cr == nil {
-			return fmt.Errorf("func NewCommentReader")
-		}
+		// how the end marker of a region is searched: the call of indexEnd (or, if there is none, of bytes.Index)
+		// anywhere in the package outside indexEnd itself, printed by SHAPE — local names are resolved through their
+		// single defining assignment and then dropped, so renaming locals or moving the split function into a helper
+		// does not change the fact:  indexEnd(_:[]byte, _:[][]byte[_], !_:[]bool[_])
 		endSearch, bufferMax := "", "default"
-		ast.Inspect(cr.Body, func(n ast.Node) bool {
-			switch s := n.(type) {
-			case *ast.AssignStmt:
-				if len(s.Lhs) == 1 && len(s.Rhs) == 1 && selPath(s.Lhs[0]) == "extra" {
-					if _, isCall := s.Rhs[0].(*ast.CallExpr); isCall && endSearch == "" {
-						endSearch = p.src(s.Rhs[0])
+		var shape func(fd *ast.FuncDecl, e ast.Expr, depth int) string
+		shape = func(fd *ast.FuncDecl, e ast.Expr, depth int) string {
+			switch x := e.(type) {
+			case *ast.ParenExpr:
+				return shape(fd, x.X, depth)
+			case *ast.UnaryExpr:
+				return x.Op.String() + shape(fd, x.X, depth)
+			case *ast.IndexExpr:
+				return shape(fd, x.X, depth) + "[_]"
+			case *ast.Ident:
+				if depth < 4 {
+					if def := p.singleDef(fd, x); def != nil {
+						return shape(fd, def, depth+1)
 					}
 				}
-			case *ast.CallExpr:
-				if strings.HasSuffix(selPath(s.Fun), ".s.Buffer") && len(s.Args) == 2 {
+			}
+			if tv, ok := p.info.Types[e]; ok && tv.Type != nil {
+				return "_:" + tv.Type.String()
+			}
+			return "_"
+		}
+		for _, want := range []string{"indexEnd", "bytes.Index"} {
+			for _, f := range p.files {
+				for _, d := range f.Decls {
+					fd, ok := d.(*ast.FuncDecl)
+					if !ok || fd.Body == nil || fd.Name.Name == "indexEnd" {
+						continue
+					}
+					ast.Inspect(fd.Body, func(n ast.Node) bool {
+						ce, ok := n.(*ast.CallExpr)
+						if !ok || endSearch != "" || p.src(ce.Fun) != want {
+							return true
+						}
+						var args []string
+						for _, a := range ce.Args {
+							args = append(args, shape(fd, a, 0))
+						}
+						endSearch = want + "(" + strings.Join(args, ", ") + ")"
+						return true
+					})
+				}
+			}
+			if endSearch != "" {
+				break
+			}
+		}
+		for _, f := range p.files {
+			ast.Inspect(f, func(n ast.Node) bool {
+				if s, ok := n.(*ast.CallExpr); ok && strings.HasSuffix(selPath(s.Fun), ".s.Buffer") && len(s.Args) == 2 {
 					bufferMax = p.src(s.Args[1])
 					if v, ok := p.intConst(s.Args[1]); ok {
 						bufferMax = v
 					}
 				}
-			}
-			return true
-		})
-		if endSearch == "" {
-			return fmt.Errorf("NewCommentReader: `extra = <call>` not found in the split function")
+				return true
+			})
 		}
-		fmt.Fprintf(w, "/-- Split function: how the end marker is searched in `left`. -/\ndef endSearch : String := %s\n", leanStr(endSearch))
+		if endSearch == "" {
+			return fmt.Errorf("no call of indexEnd or bytes.Index that searches the end marker of a region")
+		}
+		fmt.Fprintf(w, "/-- How the end marker of a region is searched (callee and argument shapes, local names resolved and dropped). -/\ndef endSearch : String := %s\n", leanStr(endSearch))
 		fmt.Fprintf(w, "/-- Second argument of `Scanner.Buffer` (maximum token size), `default` = bufio.MaxScanTokenSize (64 KiB). -/\ndef scannerMax : String := %s\n", leanStr(bufferMax))
 
 		// indexEnd: the escape byte.
@@ -114,8 +152,13 @@ func init() {
 		if ie := p.funcDecl("", "indexEnd"); ie != nil {
 			ast.Inspect(ie.Body, func(n ast.Node) bool {
 				if be, ok := n.(*ast.BinaryExpr); ok && be.Op == token.EQL {
-					if v, ok := p.intConst(be.Y); ok && strings.HasPrefix(p.src(be.X), "data[") {
-						esc = v
+					// <byte slice>[i] == <constant>, whatever the slice is called
+					if ix, isIx := be.X.(*ast.IndexExpr); isIx {
+						if tv, okT := p.info.Types[ix.X]; okT && tv.Type != nil && tv.Type.String() == "[]byte" {
+							if v, ok := p.intConst(be.Y); ok {
+								esc = v
+							}
+						}
 					}
 				}
 				return true
